@@ -373,6 +373,10 @@ fn class_of_diff(prop: &str, what: &str, d: &BTreeMap<String, (Vec<String>, Vec<
     out
 }
 
+pub fn class_of_diff_pub(prop: &str, what: &str, d: &BTreeMap<String, (Vec<String>, Vec<String>)>, ctx: &[String]) -> Vec<(String, String)> {
+    class_of_diff(prop, what, d, ctx, None)
+}
+
 fn digest_lines(lines: &[String]) -> String {
     let mut d = simcore::Digest::new();
     for l in lines {
